@@ -17,7 +17,13 @@ from ..gen import programs
 from ..refeval import close, evaluate
 
 THEOREMS_A = ["Pt.lower_roll_correct", "Pt.lower_perm_correct", "Pt.lower_basic_correct",
-              "Pt.slice_indices_inbounds"]
+              "Pt.lower_stack_correct", "Pt.lower_concat_correct", "Pt.lower_reshape_correct_C",
+              "Pt.lower_reshape_correct_F", "Pt.slice_indices_inbounds"]
+
+
+THEOREMS_KERNEL = ["Pt.eval_congr", "Pt.evalList_congr", "Pt.execStmt_frame", "Pt.execStmt_congr",
+                   "Pt.execStmt_lhs_congr", "Pt.schedule_independent_abstract", "Pt.checkKernel_sound",
+                   "Pt.checked_kernel_schedule_independent", "Pt.checked_kernel_any_schedule"]
 
 
 def _prep_dedup(expr):
@@ -113,6 +119,7 @@ def run(ctx: common.Ctx):
         "(their dtype deviation from NumPy is C03's matter)",
     ]
     ctx.lean_obligations("PtProofs.C02", THEOREMS_A)
+    ctx.lean_obligations("PtProofs.C01", THEOREMS_KERNEL)
     try:
         from . import c01_kernel
     except ImportError:
